@@ -5,6 +5,7 @@ use serde_json::Value;
 
 pub mod util;
 pub mod c03;
+pub mod c05;
 pub mod c06;
 pub mod c08;
 pub mod c11;
@@ -35,6 +36,7 @@ pub fn dispatch(prop: &str, m: &Model, ctx: &mut Ctx, facts: Option<&Value>) -> 
     }
     match prop {
         "C03" => c03::run(m, ctx),
+        "C05" => c05::run(m, ctx),
         "C06" => c06::run(m, ctx),
         "C08" => c08::run(m, ctx, loaded.as_ref().unwrap()),
         "C11" => c11::run(m, ctx, loaded.as_ref().unwrap()),
